@@ -2,5 +2,7 @@ import Fzf.Props.C11
 open Fzf.Props.C11
 #print axioms C11_plain_untouched
 #print axioms C11_plain_no_sequence
+#print axioms C11_scan_in_range
+#print axioms C11_strip_only_removes
 #print axioms C11_paint_length
 #print axioms C11_color_in_range
